@@ -391,7 +391,94 @@ theorem C14_terminating_never_launched (sp : Spec) (w : World) (lag : Nat) (co :
     · exact absurd hv h2
     · simp [hv] at h1
 
-/-! ## 5. The model meets the executable specification -/
+/-! ## 5. Deadlines: an overdue NodeClaim is deleted, whatever became of its NodePool -/
+
+/-- the specification's deadlines are the code's -/
+theorem fact_deadlines :
+    Karp.Gen.Lifecycle.launchTimeoutSecs = launchDeadlineSecs ∧
+    Karp.Gen.Lifecycle.registrationTimeoutSecs = registrationDeadlineSecs := by decide
+
+/-- in `Liveness.Reconcile`, for each of the two deadlines: the NodePool bookkeeping, its error filtered through
+    `IgnoreNotFound` (a NodePool that is gone does not count) and `IsConflict`, then the delete (whose NotFound is
+    ignored as well) -/
+theorem fact_liveness_call_order :
+    Karp.Gen.Lifecycle.livenessCallOrder =
+      ["updateNodePoolRegistrationHealth", "IgnoreNotFound", "IsConflict", "deleteNodeClaimForTimeout", "IgnoreNotFound",
+       "updateNodePoolRegistrationHealth", "IgnoreNotFound", "IsConflict", "deleteNodeClaimForTimeout", "IgnoreNotFound"] := by decide
+
+/-- `updateNodePoolRegistrationHealth` (liveness and registration) hands the error of the NodePool read to its caller as
+    it is: no `fmt.Errorf` / `errors.New` / `multierr` on the way that could hide its NotFound status -/
+theorem fact_pool_error_passed_on :
+    Karp.Gen.Lifecycle.livenessPoolHealthErrorCalls = [] ∧ Karp.Gen.Lifecycle.registrationPoolHealthErrorCalls = [] := by decide
+
+/-- `syncNode` opts a Node out of taint syncing only for the exact label value `"true"` -/
+theorem fact_do_not_sync_gate :
+    Karp.Gen.Lifecycle.doNotSyncComparisons = [("NodeDoNotSyncTaintsLabelKey", "!=", "true")] := by decide
+
+/-- a NodePool that is gone (the read answers NotFound) lets the timeout proceed, exactly as a NodePool that is there
+    or a NodeClaim that names none; only a conflict / another error holds it back -/
+theorem C14_pool_verdicts :
+    PoolGet.unlabelled.verdict = .proceed ∧ PoolGet.ok.verdict = .proceed ∧ (PoolGet.err .notFound).verdict = .proceed ∧
+    (PoolGet.err .conflict).verdict = .requeue ∧ (PoolGet.err .other).verdict = .fail := ⟨rfl, rfl, rfl, rfl, rfl⟩
+
+/-- past a deadline, as `Liveness.Reconcile` sees the in-memory NodeClaim -/
+def Overdue (c : Ctx) : Prop :=
+  c.mem.conds.r.status ≠ .true_ ∧
+  ((c.mem.conds.l.status ≠ .true_ ∧ Karp.Gen.Lifecycle.launchTimeoutSecs ≤ c.w.now - c.mem.conds.l.ltt) ∨
+   (c.mem.conds.l.status = .true_ ∧ Karp.Gen.Lifecycle.registrationTimeoutSecs ≤ c.w.now - c.mem.conds.r.ltt))
+
+theorem liveness_overdue (f : Faults) (c : Ctx) (h : Overdue c) : liveness f c = timeoutDelete f c := by
+  obtain ⟨hr, ⟨hl, hd⟩ | ⟨hl, hd⟩⟩ := h
+  · have hn : ¬ (c.w.now - c.mem.conds.l.ltt < Karp.Gen.Lifecycle.launchTimeoutSecs) := by omega
+    unfold liveness livenessLaunch
+    simp [hr, hl, hn]
+  · have hn : ¬ (c.w.now - c.mem.conds.r.ltt < Karp.Gen.Lifecycle.registrationTimeoutSecs) := by omega
+    unfold liveness livenessLaunch
+    simp [hr, hl, hn]
+
+/-- **C14_timeout_deletes** — for ALL in-flight states of a reconcile and ALL outcome vectors: when liveness finds the
+    NodeClaim past its launch or registration deadline and the NodePool read did not fail (no NodePool named, NodePool
+    there, or NodePool GONE), the next API write is the delete of the NodeClaim — nothing is written in between — and
+    if the API server accepts it the NodeClaim is terminating or gone. -/
+theorem C14_timeout_deletes (f : Faults) (c : Ctx) (h : Overdue c) (hp : f.poolGet.verdict = .proceed) :
+    (liveness f c).calls = c.calls ++ poolCalls f ++ [⟨.claimDelete, claimDeleteOutcome f c.w⟩] ∧
+    (claimDeleteOutcome f c.w = .ok → (liveness f c).w.claim = c.w.claim.deleted) ∧
+    (claimDeleteOutcome f c.w ≠ .ok → claimDeleteOutcome f c.w ≠ .notFound → (liveness f c).errs = true) := by
+  rw [liveness_overdue f c h]
+  have hv : (poolHealth f c).2 = .proceed := by unfold poolHealth; simp only [hp]
+  unfold timeoutDelete
+  simp only [hv, ne_eq, not_true_eq_false, if_false]
+  refine ⟨?_, ?_, ?_⟩
+  · split <;> simp
+  · intro hok
+    simp [hok, deleteClaim]
+  · intro h1 h2
+    simp [h1, h2]
+
+/-- in particular for an orphaned NodeClaim (its NodePool was deleted): the delete is in the call log -/
+theorem C14_timeout_deletes_orphan (f : Faults) (c : Ctx) (h : Overdue c) (hp : f.poolGet = .err .notFound) :
+    (⟨.claimDelete, claimDeleteOutcome f c.w⟩ : Call) ∈ (liveness f c).calls := by
+  rw [(C14_timeout_deletes f c h (by rw [hp]; rfl)).1]
+  simp
+
+/-- **C14_timeout_held_back** — the only thing that puts the delete off is a NodePool read that failed with something
+    other than NotFound: then nothing is deleted or changed, and the reconcile comes back (an error, or a requeue). -/
+theorem C14_timeout_held_back (f : Faults) (c : Ctx) (h : Overdue c) (hp : f.poolGet.verdict ≠ .proceed) :
+    (liveness f c).w = c.w ∧ (liveness f c).calls = c.calls ++ poolCalls f ∧
+    ((liveness f c).errs = true ∨ (liveness f c).results = c.results ++ [0]) := by
+  rw [liveness_overdue f c h]
+  have hv : (poolHealth f c).2 = f.poolGet.verdict := by unfold poolHealth; simp only []; split <;> simp_all
+  unfold timeoutDelete
+  simp only [hv, ne_eq, hp, not_false_eq_true, if_true]
+  refine ⟨by simp, by simp, ?_⟩
+  unfold poolHealth
+  simp only []
+  split
+  · rename_i hx; exact absurd hx hp
+  · right; simp
+  · left; simp
+
+/-! ## 6. The model meets the executable specification -/
 
 /-- **C14_model_meets_spec** — the specification `historyOK` of `Karp/Spec/LifecycleOrder.lean` — the same Boolean
     function the harness evaluates on what the REAL controller did (create-once, finalizer-first, order, observable
@@ -516,6 +603,26 @@ example : historyOK spec1 { prev := (World.init false).claim, finEver := false }
     ((modelHistory spec1 (World.init false) payload).map (fun o => { o with nodes := o.nodes.map (fun n =>
       { n with readyCond := .unknown }) })) = false := by
   decide
+
+/-- a NodeClaim whose every launch attempt fails and whose NodePool is gone: at the launch deadline it is deleted -/
+def orphan (pg : PoolGet) : List Step := [
+  recon 0 .generic { poolGet := pg }, .env (.advance 299),
+  recon 0 .generic { poolGet := pg }]
+
+example : ((run spec1 (World.init false) (orphan (.err .notFound))).claim.deleting = true) ∧
+    (step spec1 (run spec1 (World.init false) ((orphan (.err .notFound)).take 2)) (recon 0 .generic { poolGet := .err .notFound })).2.calls =
+      [⟨.create, .generic⟩, ⟨.poolGet, .notFound⟩, ⟨.claimDelete, .ok⟩] := by decide
+/-- a failed NodePool read holds it back, with an error -/
+example : ((run spec1 (World.init false) (orphan (.err .other))).claim.deleting = false) ∧
+    (step spec1 (run spec1 (World.init false) ((orphan (.err .other)).take 2)) (recon 0 .generic { poolGet := .err .other })).2.result = .err := by decide
+/-- the judge: the model's record passes, the same record without the delete (what a controller that mistakes the
+    missing NodePool for a failure leaves behind) does not -/
+example : timeoutsOK 0 0 (modelHistory spec1 (World.init false) (orphan (.err .notFound))) = true := by decide
+example : timeoutsOK 0 0 ((modelHistory spec1 (World.init false) (orphan (.err .notFound))).map
+    (fun o => { o with calls := o.calls.filter (fun c => c.site != .claimDelete) })) = false := by decide
+/-- `Overdue` is inhabited: five minutes after creation, never launched -/
+example : Overdue { w := { now := 300 }, mem := {} } := by
+  refine ⟨by decide, Or.inl ⟨by decide, by decide⟩⟩
 
 end examples
 
